@@ -603,11 +603,19 @@ def _check_blocks(repo, r2, s, enc, search, fte, fts, L):
         # the reader's table param_by_level[level][is pointer block]
         table = None
         for st in ast.walk(search.node):
-            if isinstance(st, ast.Assign) and isinstance(st.value, ast.List) and all(isinstance(e, ast.List) for e in st.value.elts) and len(st.value.elts) >= 2:
-                try:
-                    table = ast.literal_eval(st.value)
-                except Exception:
-                    table = None
+            if isinstance(st, ast.Assign) and isinstance(st.value, ast.List) and all(isinstance(e, (ast.List, ast.Tuple)) for e in st.value.elts) and len(st.value.elts) >= 2:
+                rows = []
+                for e in st.value.elts:
+                    row = []
+                    for cell in e.elts:
+                        if isinstance(cell, ast.Constant) and isinstance(cell.value, str):
+                            row.append(cell.value)
+                        elif (dotted(cell) or "").startswith("self.config."):
+                            row.append(dotted(cell).split(".")[-1])
+                        else:
+                            row.append(unparse(cell))
+                    rows.append(row)
+                table = rows
         want = [["param_b", "param_b_prime"], ["param_B", "param_B_prime"], ["param_B", "param_B_prime"]]
         r2.require(table == want, search, "Pi2Lev level/kind table",
                    "Pi2Lev._Search parses blocks with the entry counts %s; the writer's geometry is %s (dictionary level: b identifiers / b' pointers, array levels: B / B')" % (table, want))
